@@ -164,7 +164,7 @@ def gen_lines(n, seed, n_ids=0, n_marathon=0):
     per = max(1, n // 32)
     jobs = [(seeds[i:i + per], i) for i in range(0, n, per)]
     special = [("ids", rng.randrange(2**31), 10**6 + i) for i in range(n_ids)] + [("marathon", rng.randrange(2**31), 2 * 10**6 + i) for i in range(n_marathon)]
-    with mp.get_context("fork").Pool(common.NCPU) as pool:
+    with common.pool(common.NCPU) as pool:
         sp = pool.map_async(_special, special)
         out = pool.map(_chunk, jobs)
         sp = sp.get()
